@@ -223,6 +223,7 @@ static void case_c06(const drvargs_t *a,long id,const char *envpath){
     if(managed){ c.mode=ENC_MANAGED; c.br_nom=(long)(c.rate*c.channels*(0.9+1.2*rng_unit(&r))); c.br_max=-1; c.br_min=-1; }
     else { c.mode=ENC_VBR; c.quality=qs[qi[k]]; }
     enccfg_json(&c,desc,sizeof desc);
+    c.refused_wrote= (id%5==2)? 2:0;   /* one over-long vorbis_analysis_wrote in mid-stream: refused, and what follows must stay where it belongs */
     encres_t er; int ret=enc_run(&c,&er);
     if(ret){ res_count("setups_refused",1); encres_free(&er); continue; }
     pdec_t pd;
